@@ -39,6 +39,12 @@ CHECKS.append(
      "level_note": "Trusted: h5py/libhdf5 on an in-memory file object (byte-level faults inside libhdf5 are not injected: no property speaks about them); the harness's record of what each option set must store. Nothing demanded about orphan rows / total_thrown after a rejected add, or files never closed; component triggers compared only where waveform rows exist.",
      "technique": TECH + "seeded add/reject/restart histories on an in-memory disk + exhaustive enumeration of collaborator failure points within an add, vs per-add reference records"})
 
+CHECKS.append(
+    {"property_id": "C12", "category": "exploration", "design_ref": "DESIGN.md §4 C12",
+     "text": "Seeded histories: 2-8 events with ragged rows are written once in a single session (reference) and again split into 1-4 append sessions, each session a restart (new writer object, counters recovered from the simulated disk, detector re-linked, simulated clock advanced or jumped backwards); then a PRNG-ordered battery of fresh readers - iteration with every chunk size, every integer index -n..n-1, slices in positive / negative / None spellings with step>=1, two interleaved iterators over one open file, File() and context-manager access, FileGenerator over file lists with any chunk size, and out-of-range / zero / negative-step accesses that must raise and leave the reader usable. Oracle: event-for-event equality (canonical digests of everything the public accessors return) with one sequential pass over the reference file; FileGenerator particles field by field. A fraction of runs enumerates all slices 0<=a<b<=n, 1<=c<=n in four spellings plus all indices (n<=7).",
+     "level_note": "Trusted: the sequential slice_range=None pass over the single-session file as reference (a writer bug common to both files is C11's business, not visible here); /file_metadata excluded; every event records particles; total_thrown apportioning not judged.",
+     "technique": TECH + "append-session restarts with clock jumps on an in-memory disk + PRNG-ordered reader battery vs single-session sequential-pass reference"})
+
 NOT_APPLICABLE = [
     {"property_id": "C01", "reason": "pure function of (endpoints, ice parameters, dz): no state, randomness, I/O, schedule or fault for a simulator to control; needs an ODE/quadrature oracle (different technique)"},
     {"property_id": "C02", "reason": "metamorphic relations between pure function evaluations (swap/translate/rotate endpoints); no history or fault dimension (lazy-cache aspect of tracers is covered under C06)"},
@@ -51,7 +57,6 @@ NOT_APPLICABLE = [
     {"property_id": "C18", "reason": "pure geometric/metamorphic relations over inputs (image geometry, layer splitting)"},
     {"property_id": "C20", "reason": "statement about every attribute reference in the source against a dependency range: static resolution, not an execution under faults (its concrete instances on this tree were nevertheless repaired because they made the claimed properties fail)"},
     {"property_id": "C10", "reason": "claimed in DESIGN.md; check under construction in this session"},
-    {"property_id": "C12", "reason": "claimed in DESIGN.md; check under construction in this session"},
     {"property_id": "C13", "reason": "claimed in DESIGN.md; check under construction in this session"},
     {"property_id": "C14", "reason": "claimed in DESIGN.md; check under construction in this session"},
 ]
